@@ -97,4 +97,7 @@ def show(t):
 
 def expected_values(case, block_idx):
     b = case.blocks[block_idx]
-    return (b.tag, str(int(b.tag[1:]) + 1) if 'ID' in b.overrides else '0', b.tag if 'f' in b.overrides else 'default')
+    base = (b.tag, str(int(b.tag[1:]) + 1) if 'ID' in b.overrides else '0', b.tag if 'f' in b.overrides else 'default')
+    if getattr(case, 'with_type', False):
+        base += ('[u8;%d]' % (int(b.tag[1:]) + 1),)
+    return base
